@@ -12,6 +12,7 @@ import (
 	"runtime/debug"
 	"sort"
 	"strconv"
+	"strings"
 )
 
 type propDef struct {
@@ -79,7 +80,10 @@ func main() {
 // indexFields records, for every struct field of a module named type, "Type.field".
 func (c *Ctx) indexFields() {
 	c.fieldOwner = map[*types.Var]string{}
-	for _, p := range c.Pkgs {
+	for _, p := range c.All {
+		if p.Types == nil || !(strings.HasPrefix(p.PkgPath, modPath) || strings.HasPrefix(p.PkgPath, "github.com/mattn/go-runewidth") || strings.HasPrefix(p.PkgPath, "github.com/rivo/uniseg")) {
+			continue
+		}
 		sc := p.Types.Scope()
 		for _, name := range sc.Names() {
 			tn, ok := sc.Lookup(name).(*types.TypeName)
